@@ -5,6 +5,9 @@
 -/
 import Driver.Pure
 import Driver.ArenaD
+import Driver.CollD
+import Driver.StrsD
+import Driver.PoolD
 
 def splitLine (line : String) : List String :=
   (line.trimAscii.toString.splitOn " ").filter (· ≠ "")
@@ -24,10 +27,20 @@ partial def loopArena (h : IO.FS.Stream) (out : IO.FS.Stream) (d : Driver.ArenaD
   out.putStrLn r
   loopArena h out d'
 
+partial def loopGen {σ : Type} (step : σ → List String → σ × String) (h : IO.FS.Stream) (out : IO.FS.Stream) (d : σ) : IO Unit := do
+  let line ← h.getLine
+  if line.isEmpty then return ()
+  let (d', r) := step d (splitLine line)
+  out.putStrLn r
+  loopGen step h out d'
+
 def main (args : List String) : IO UInt32 := do
   let stdin ← IO.getStdin
   let stdout ← IO.getStdout
   match args with
   | ["pure"] => loopPure stdin stdout; return 0
   | ["arena"] => loopArena stdin stdout default; return 0
+  | ["coll"] => loopGen Driver.CollD.handle stdin stdout default; return 0
+  | ["strs"] => loopGen Driver.StrsD.handle stdin stdout default; return 0
+  | ["pool"] => loopGen Driver.PoolD.handle stdin stdout default; return 0
   | _ => IO.eprintln "usage: driver pure|arena|coll|strs|pool"; return 2
